@@ -56,20 +56,26 @@ def evalRun (kv : List (String × String)) : Option String := do
   let fs ← faults? (← lookup kv "faults")
   let g : Nat → Bool := fun i => some i != chk
   let db := (lookup kv "db").getD "1" != "0"
-  let e : Env := { f := faultFn fs, g := g, db := db }
+  let usable := (lookup kv "var").getD "-" != "badhook"
+  let e : Env := { f := faultFn fs, g := g, db := db, hooksUsable := usable }
   let nat (k : String) : Nat := ((lookup kv k).bind String.toNat?).getD 0
-  let c : Cfg := { e := ne, a := na, ch := nat "ch", n := nat "n", crl := nat "crl" != 0 }
+  let var := (lookup kv "var").getD "-"
+  let c : Cfg := { e := ne, a := na, ch := nat "ch", n := nat "n", crl := nat "crl" != 0,
+                   ids := if var.startsWith "ids2" then 2 else 1, pend := var.endsWith "pending",
+                   identity := var == "identity" }
   let d0 : Durable := {}
   let r := runOp e op c d0
   let d := r.1.d
   let cl := client op r
   let clS := if cl = .error then "err" else "ok"
   let got := match cl with | .error => "none" | .certificate => "cert" | .revoked => "ack"
-  -- the identical request again, no faults, on the state the first attempt left
-  let reuse :=
-    if op.usesToken then
-      (if client op (runOp { f := fun _ => .ok, g := g, db := db } op c d) = .error then "err" else "ok")
-    else "na"
+  -- the identical request again: with the same failures, without them, after a restart
+  let okE : Env := { f := fun _ => .ok, g := g, db := db, hooksUsable := usable }
+  let cls (x : St × Bool) : String := if client op x = .error then "err" else "ok"
+  let r2 := runOp e op c d
+  let r3 := runOp okE op c r2.1.d
+  let r4 := runOp okE op c (restart db r3.1.d)
+  let reuse := if op.usesToken then s!"{cls r2}/{cls r3}/{cls r4}" else "na"
   -- without a database the token set lives in memory: no table to observe
   let head := s!"{clS} got={got} tok={b (d.tokenSpent && db)} stored={d.certs} data={d.datas}"
   let tail := if op = .acmeFinalize then s!" acme={d.acmeCerts} valid={b d.orderValid}" else s!" rev={b d.revoked} reuse={reuse}"
@@ -125,6 +131,13 @@ def evalSrc (fn : String) : String :=
   | "Validate" =>
     -- challengeValidationController.Validate: the first webhook error returns
     ",".intercalate (toks [.check] ++ toks [.challenge] ++ ["ret"])
+  | "@signers" =>
+    ",".intercalate (((signerTable one).map (·.1) ++ internalSigners).toArray.qsort (· < ·)).toList
+  | "@callers" =>
+    ",".intercalate (((callerTable one).map fun p => p.1 ++ ">" ++ p.2.1).toArray.qsort (· < ·)).toList
+  | "@scepTypes" =>
+    let j (l : List String) := "+".intercalate (l.toArray.qsort (· < ·)).toList
+    s!"challenged={j challengedTypes} csr={j csrTypes}"
   | "DoWithContext" =>
     -- the client's decision table: first attempt × second attempt → allowed?
     let os := [Outcome.ok, .error, .timeout, .deny, .malformed]
